@@ -169,7 +169,7 @@ def run_layout(run, drv):
             run.count("layout.dtype", d)
         nt = run.rng.choice([0, 1, 4])
         try:
-            with time_limit(30):
+            with time_limit(120):
                 c = td.consolidate(num_threads=nt)
             meta = ordered_meta(c)
             impl = ["ok", [m[3] for m in meta], bytes(c._consolidated["storage"].tolist()).hex()]
@@ -216,7 +216,7 @@ def run_layout(run, drv):
             run.case(("threaded", it, o))
             with patched_pool(order=list(o)) as pp:
                 try:
-                    with time_limit(30):
+                    with time_limit(120):
                         c = td.consolidate(num_threads=3)
                     ex = pp.executors[0]
                     if len(ex.submitted) == len(o) and ex.ran != list(o):
@@ -279,7 +279,7 @@ def run_histories(run, drv):
                     if file:
                         kw["filename"] = scratch / f"h{h}.mmap"
                     try:
-                        with time_limit(30):
+                        with time_limit(120):
                             td = td.consolidate(**kw)
                     except TimeoutError as e:
                         raise Infra(f"consolidate timed out: {e}")
@@ -383,7 +383,7 @@ def run_histories(run, drv):
             # serialise / deserialise
             for how in ("pickle", "deepcopy"):
                 try:
-                    with time_limit(30):
+                    with time_limit(120):
                         r = pickle.loads(pickle.dumps(td)) if how == "pickle" else copy.deepcopy(td)
                     got = by_path(obs_of(r))
                 except TimeoutError as e:
